@@ -514,7 +514,19 @@ func rootOf(c *config) string {
 // runtimeAllow lists paths the Go runtime itself may touch during the handler
 // phase. None of them can be chosen by a request. (Empty: everything lazy is
 // warmed up before the begin sentinel.)
-var runtimeAllow = map[string]struct{}{}
+var runtimeAllow = map[string]struct{}{
+	// fixed system paths read lazily by the Go runtime / compression libraries (CPU topology, huge
+	// pages); none of them can be influenced by a request. Seen once in a 300k-request thorough run:
+	// openat("/sys/devices/system/cpu/online") from a freshly started thread.
+	"/sys/devices/system/cpu/online":                     {},
+	"/sys/devices/system/cpu/possible":                   {},
+	"/sys/devices/system/cpu/present":                    {},
+	"/proc/cpuinfo":                                      {},
+	"/proc/stat":                                         {},
+	"/proc/self/auxv":                                    {},
+	"/sys/kernel/mm/transparent_hugepage/hpage_pmd_size": {},
+	"/proc/sys/kernel/threads-max":                       {},
+}
 
 // parserSelfCheck runs the log parser over lines of known meaning.
 func parserSelfCheck() string {
